@@ -13,7 +13,7 @@
 
   (1) kv_roundtrip_partial      parse_key_value ∘ encode_key_value = id on flat string objects whose
                                 keys and values are in the safe class `safeObject` (decidable),
-                                single-character delimiters satisfying `delimOK`
+                                single-character delimiters, the key-value delimiter not a space or tab (`delimOK`)
   (2) logfmt_roundtrip_partial  the same for encode_logfmt / parse_logfmt
   (3) kv_safe_iff_no_class      `safeObject` is exactly "the oracle's classifier finds no finding
                                 class": a round-trip failure outside the listed classes would
@@ -38,7 +38,7 @@ def flatStr (o : List (List Char × List Char)) : Prop :=
 /-- C24, key-value clause, as stated in the property (matching single-character delimiters, the
     default `whitespace`/`accept_standalone_key` arguments). -/
 def KvRoundTrip : Prop :=
-  ∀ (kd fd : Char) (o : List (List Char × List Char)), delimOK kd fd = true → flatStr o →
+  ∀ (kd fd : Char) (o : List (List Char × List Char)), delimOK kd = true → flatStr o →
     parseKV (defaultCfg [kd] [fd]) (encodeKV [kd] [fd] o) = .ok (expected o)
 
 /-- C24, logfmt clause. -/
@@ -56,11 +56,10 @@ def CsvRoundTrip : Prop :=
     parsing what the encoder wrote returns the object. -/
 theorem kv_roundtrip_partial (kd fd : Char) (ws : Whitespace) (sk : Bool)
     (o : List (List Char × List Char))
-    (hd : delimOK kd fd = true) (hsorted : keysSorted o = true)
+    (hd : delimOK kd = true) (hsorted : keysSorted o = true)
     (hsafe : safeObject kd fd o = true) :
     parseKV { kd := [kd], fd := [fd], ws := ws, standalone := sk } (encodeKV [kd] [fd] o)
       = .ok (expected o) := by
-  have hD := delims_of_ok hd
   simp only [safeObject, Bool.and_eq_true, Bool.not_eq_true', List.all_eq_true] at hsafe
   obtain ⟨hne, hall⟩ := hsafe
   cases o with
@@ -70,7 +69,7 @@ theorem kv_roundtrip_partial (kd fd : Char) (ws : Whitespace) (sk : Bool)
       intro p hp
       have := hall p hp
       exact ⟨tok_key this.1, tok_val this.2⟩
-    have hp := parsePairs_enc { kd := [kd], fd := [fd], ws := ws, standalone := sk } rfl rfl hD kv r htok
+    have hp := parsePairs_enc { kd := [kd], fd := [fd], ws := ws, standalone := sk } rfl rfl hd kv r htok
     unfold parseKV
     rw [encodeKV_cons, hp]
     simp only
@@ -96,21 +95,30 @@ theorem logfmt_roundtrip_partial (o : List (List Char × List Char))
   rw [encodeLogfmt_eq]
   exact kv_roundtrip_partial '=' ' ' .lenient true o (by decide) hsorted hsafe
 
-/-- (3) the safe class is the complement of the finding classes the oracle reports. -/
+/-- (3) the hypotheses of (1) are exactly "the oracle's classifier reports no finding class". -/
 theorem kv_safe_iff_no_class (kd fd : Char) (o : List (List Char × List Char)) :
-    safeObject kd fd o = true ↔ objectClass [kd] [fd] o = none := by
-  unfold safeObject objectClass
-  cases o with
-  | nil => simp
-  | cons kv r =>
-    simp only [List.isEmpty_cons, Bool.not_false, Bool.true_and, Bool.false_eq_true, if_false]
-    generalize kv :: r = l
-    induction l with
-    | nil => simp [firstSome]
-    | cons a l ih =>
-      simp only [List.all_cons, Bool.and_eq_true, firstSome, safeKey, safeVal] at ih ⊢
-      cases h1 : tokenClass [kd] [fd] true a.1 <;> cases h2 : tokenClass [kd] [fd] false a.2 <;>
-        simp_all
+    (delimOK kd = true ∧ safeObject kd fd o = true) ↔ objectClass [kd] [fd] o = none := by
+  unfold objectClass
+  by_cases hk : kd = ' ' ∨ kd = '\t'
+  · have : delimOK kd = false := by rcases hk with rfl | rfl <;> decide
+    rcases hk with rfl | rfl <;> simp [this]
+  · have hk' : delimOK kd = true := by
+      simp only [not_or] at hk; exact delimOK_iff.mpr hk
+    simp only [not_or] at hk
+    simp only [hk', true_and, List.cons.injEq, and_true, hk.1, hk.2, decide_false, Bool.or_self,
+      Bool.false_eq_true, if_false]
+    unfold safeObject
+    cases o with
+    | nil => simp
+    | cons kv r =>
+      simp only [List.isEmpty_cons, Bool.not_false, Bool.true_and, Bool.false_eq_true, if_false]
+      generalize kv :: r = l
+      induction l with
+      | nil => simp [firstSome]
+      | cons a l ih =>
+        simp only [List.all_cons, Bool.and_eq_true, firstSome, safeKey, safeVal] at ih ⊢
+        cases h1 : tokenClass [kd] [fd] true a.1 <;> cases h2 : tokenClass [kd] [fd] false a.2 <;>
+          simp_all
 
 /-! ## CSV -/
 
